@@ -270,6 +270,11 @@ func (e *enc) instr(b *ssa.BasicBlock, ins ssa.Instruction) {
 			if rg, ok := i.Iter.(*ssa.Range); ok {
 				if mt, ok := rg.X.Type().Underlying().(*types.Map); ok {
 					ks, vs := e.sortOf(mt.Key()), e.sortOf(mt.Elem())
+					if _, ok := e.valsNonnilOf(rg.X); ok {
+						if t := nonnilTerm(vs, n+".c2"); t != "" && t != "true" {
+							e.assume(fmt.Sprintf("(=> %s.c0 %s)", n, t))
+						}
+					}
 					if mapSupported(ks, vs) {
 						has, val := e.mapArrs(ks, vs)
 						m := e.val(rg.X)
@@ -674,6 +679,11 @@ func (e *enc) lookup(b *ssa.BasicBlock, i *ssa.Lookup) {
 			n := e.havoc(i)
 			e.assume(fmt.Sprintf("(= %s.c1 %s)", n, has))
 			e.assume(fmt.Sprintf("(= %s.c0 (ite %s %s %s))", n, has, val, e.zero(vs)))
+			if _, ok := e.valsNonnilOf(i.X); ok {
+				if t := nonnilTerm(vs, n+".c0"); t != "" && t != "true" {
+					e.assume(fmt.Sprintf("(=> %s.c1 %s)", n, t))
+				}
+			}
 			if vs == "Ref" {
 				e.assume(e.allocated(n+".c0", e.heap))
 			}
@@ -710,6 +720,11 @@ func (e *enc) mapUpdate(b *ssa.BasicBlock, i *ssa.MapUpdate) {
 		e.addI("safe", "hash", i, R, fmt.Sprintf("(not (uncomparable %s))", k))
 	}
 	e.mapWriteHook(b, i, m)
+	if what, ok := e.valsNonnilOf(i.Map); ok {
+		if t := nonnilTerm(vs, v); t != "" && t != "true" {
+			e.addI("inv", "vals-nonnil:"+what, i, R, t)
+		}
+	}
 	e.callOrd["#mapupdate"]++
 	e.siteAsserts(i, fmt.Sprintf("mapupdate %d", e.callOrd["#mapupdate"]), nil, nil, R)
 	e.harr("MapLen", "(Array Ref "+e.isort()+")")
